@@ -269,6 +269,8 @@ def check_case(name, recipes, res, lines, expect, problems, seed=0):
         actual = "OK " + " ".join(desc_str(desc_of_array(a)) for a in conv) + " | " + wl(run.inp_warns)
     lines.append("check " + " ".join(desc_str(d) for d in descs))
     expect.append(("check", case, actual))
+    lines.append("class " + " ".join(desc_str(d) for d in descs))
+    expect.append(("class", case, "accepted" if run.exc is None or ncalls else type(run.exc).__name__))
     if run.exc is None:
         od = desc_of_array(run.out)
         lines.append(f"output {od['inf']} {od['oor']}")
@@ -376,6 +378,8 @@ def check_time_case(name, cfg, deltas, res, lines, expect, problems, omit=(), nf
     expect.append(("time", case, actual))
     lines.append(f"consumes {name} {rw} {yr}")
     expect.append(("consumes", case, None))  # filled by the caller from the oracle below
+    lines.append(f"consumes-from-sites {name} {rw} {yr}")
+    expect.append(("consumes-from-sites", case, None))
     # oracle: in a consuming configuration a *given* array of the wrong length is a ValueError before any window computation,
     # whichever other arrays are omitted
     consuming = name == "ISIMIP" or rw
@@ -466,7 +470,12 @@ def run(tier, res, force_search=False):
         "(isinstance, np.issubdtype, ndim, shape, np.isnan/isinf, masked-array ufunc semantics), validated by the correspondence only",
         "the instrumentation wraps apply_location, _check_inputs_and_convert_if_possible and the per-window computation on the instance (observation only)",
     ]
-    res.assumptions = ["default call mode (parallel=False, failsafe=False); with failsafe=True exceptions raised inside a location are swallowed by design",
+    res.assumptions = ["RUNTIME-ONLY clauses (decided by the oracle on the real code, no theorem): the *values* after conversion "
+                       "(astype(float), MaskedArray.filled(nan): NaN exactly at the masked cells, other cells unchanged), the result's numpy dtype, "
+                       "pickling / the process pool of the parallel path, tqdm, the warnings machinery. The model carries their logic part only: "
+                       "descriptor-level conversion (dtype class, masked flag, NaN flag), the time axis of the result buffer of every dispatch "
+                       "path (tier A), which warnings in which order",
+                       "default call mode (parallel=False, failsafe=False); with failsafe=True exceptions raised inside a location are swallowed by design",
                        "a debiaser may fail on non-finite data inside a location (scipy fits); such failures are tolerated after the contract's warnings were checked, and counted"]
 
     lean_ok = C.lean_phase(res, PROP, GEN, TARGETS)
@@ -530,6 +539,7 @@ def run(tier, res, force_search=False):
                 k0 = len(expect)
                 flags = check_time_case(name, cfg, d3, res, lines, expect, problems, omit=omit, nfut=nfut)
                 expect[k0 + 1] = ("consumes", expect[k0 + 1][1], flags)
+                expect[k0 + 2] = ("consumes-from-sites", expect[k0 + 2][1], flags)
 
     # ---- accept side: three different time lengths through every dispatch path (serial / parallel / failsafe / progress bar)
     triples = [(40, 50, 60), (60, 50, 40)]
